@@ -41,8 +41,10 @@ def cases(tier):
             if all(x == 1 for x in dims):
                 continue
             for c in (False, True, 'rhs', 'guess'):        # 'rhs' / 'guess': only that object is complex (mixed dtypes)
-                for opk in ('dense', 'ttbuilt'):
+                for opk in ('dense', 'ttbuilt', 'kronint'):
                     if c in ('rhs', 'guess') and (opk == 'ttbuilt' or d == 4):
+                        continue
+                    if opk == 'kronint' and (c is not False or d == 4):     # integer-dtype cores everywhere (operator, guess, rhs)
                         continue
                     if d == 1 and opk == 'ttbuilt':
                         continue
@@ -137,6 +139,15 @@ def make_problem(case, rng):
     c = cc is True
     d = len(dims)
     n = int(np.prod(dims))
+    if case['op'] == 'kronint':
+        cores = []
+        for m_ in dims:
+            Ti = 2 * np.eye(m_, dtype=np.int64) + np.eye(m_, k=1, dtype=np.int64) + np.eye(m_, k=-1, dtype=np.int64) if m_ > 1 else np.array([[3]], dtype=np.int64)
+            cores.append(Ti.reshape(1, m_, m_, 1))
+        op = TT(cores)                       # Kronecker product of tridiagonal SPD integer matrices, int64 cores
+        A = mat(op).astype(float)
+        b = TT([np.rint(1000 * rng.standard_normal((1 if i == 0 else case['rb'], dims[i], 1, 1 if i == d - 1 else case['rb']))).astype(np.int64) for i in range(d)])
+        return op, A, b
     if case['op'] == 'dense':
         B = rng.standard_normal((n, n)) + (1j * rng.standard_normal((n, n)) if c else 0)
         A = B.conj().T @ B / n + np.eye(n)
@@ -161,6 +172,17 @@ def run_case(case, seed):
     bv = vec(b)
     xs = np.linalg.solve(A, bv)
     guess = tt_from(rand_cores(rng, dims, [1] * d, rg, c in (True, 'guess')))
+    if case['op'] == 'kronint':
+        from scikit_tt.tensor_train import TT as _TT
+        g_ = [np.rint(1000 * rng.standard_normal((rg[i], dims[i], 1, rg[i + 1]))) for i in range(d)]    # integer dtype, generic values (no exact coincidences)
+        guess = _TT([x_.astype(np.int64) for x_ in g_])
+        # D5: the frames of the guess must have full rank (every unfolding rank equals the representation rank)
+        from vt.core import unfolding_svals
+        ga = vec(guess).reshape(dims + [1] * d)
+        if any(np.sum(unfolding_svals(ga, d, k_) > 1e-9 * max(1.0, np.abs(ga).max())) < rg[k_] for k_ in range(1, d)) or not np.any(vec(b)):
+            r.skipped += 1
+            r.outcome = 'skipped-degenerate-integer-guess'
+            return r
     r.nontrivial = d >= 2 and (max(rg) > 1 or bool(c))
     sop, sb, sg = snap(op), snap(b), snap(guess)
     thr = case['thr']; mr = np.inf if case['mr'] in (None, 'inf') else case['mr']
